@@ -111,6 +111,15 @@ def _create_files(  # noqa: C901, PLR0912, PLR0913
         if links is None and isinstance(storage_obj, ObjectStorage):
             links = storage_obj.odb.cache_types
 
+        # NOTE: unlike copying, linking does not create missing parent dirs,
+        # and an index may hold files without explicit entries for their dirs.
+        for parent in {fs.parent(dest_path) for dest_path in dest_paths}:
+            try:
+                fs.makedirs(parent, exist_ok=True)
+            except OSError:
+                # will be reported per file through on_error below
+                pass
+
         transfer(
             src_fs,
             list(src_paths),
